@@ -251,6 +251,9 @@ func TestVerifC17(t *testing.T) {
 			if r.Intn(3) == 0 { // bias towards "everybody lags" so that the cap matters
 				rp.lag = 500
 				rp.offline = false
+			} else if r.Intn(4) == 0 { // … and towards "offline and caught up again" so that the way back is exercised
+				rp.offline = true
+				rp.lag = []int{0, 29, 30, 31}[r.Intn(4)]
 			}
 			s.repl = append(s.repl, rp)
 		}
